@@ -94,7 +94,7 @@ def make_chain(levels: Tuple[Tuple[str, ...], ...]) -> List[type]:
         name = f'Shape{_COUNTER[0]}'
 
         def __init__(self: Any, future_state: str = 'pending', depth: int = 2) -> None:
-            self.a = 3
+            self.a = (3, [1, 2], {'t': [0]})
             self.b = {'k': [1, 2], 'n': {'x': 1}}
             self.m = self.method
             self.s = Inner(depth)
@@ -171,7 +171,8 @@ def check_case(levels: Tuple[Tuple[str, ...], ...], future_state: str, mode: str
         if missing:
             violate('declared-member-not-saved', missing, member=missing[0])
         # copied at save time: mutate the original afterwards
-        obj.a = 99
+        obj.a[1].append('later')
+        obj.a[2]['t'].append('later')
         obj.b['k'].append('later')
         obj.b['n']['x'] = 'later'
         obj.s.v.append('later')
@@ -345,7 +346,7 @@ def run_check(tier: str, seed: int, workers: Any) -> Dict[str, Any]:
     coverage = {
         'evaluations': total['n'], 'distinct_nontrivial': total['nontrivial'],
         'states': len({c[0] for c in all_cases}), 'transitions': total['n'], 'traces_validated_against_impl': total['n'],
-        'rule': 'inheritance chains of 1-3 levels, each level declaring a subset of {a plain int, b nested dict/list, m bound '
+        'rule': 'inheritance chains of 1-3 levels, each level declaring a subset of {a tuple holding a list and a dict, b nested dict/list, m bound '
                 'method, s nested Savable (depth 2), f SavableFuture} with @auto_persist (quick: all single levels, '
                 'two-level chains with <=3 declarations or a disjoint split of all 5, three-level chains with <=1 per '
                 'level) x future state {pending, result, exception, cancelled} x loader {default, global custom, custom in '
